@@ -196,7 +196,12 @@ pub fn check(mapfile: &str, body: &str, model_ill: bool) -> Out {
         if let Err(e) = truth::passes::resolution::assign_languages(&mut block, truth::LanguageKey::Anm, ctx) { e.ignore(); return Err("rejected:assign_languages".into()); }
         if let Err(e) = truth::passes::resolution::resolve_names(&block, ctx) { e.ignore(); return Err(format!("rejected:resolve:{}", truth.get_captured_diagnostics().unwrap_or_default())); }
         let verdict = truth::passes::type_check::run(&block, ctx);
-        let accepted = match verdict { Ok(()) => true, Err(e) => { e.ignore(); false } };
+        let mut accepted = match verdict { Ok(()) => true, Err(e) => { e.ignore(); false } };
+        // programs with `const` items: their values must be computed before anything can be evaluated (as the real pipelines do)
+        if accepted && body.contains("const ") {
+            if let Err(e) = truth::passes::evaluate_const_vars::run(truth.ctx()) { e.ignore(); accepted = false; }
+        }
+        let ctx = truth.ctx();
         let diag = truth.get_captured_diagnostics().unwrap_or_default();
         if accepted {
             let ctx = truth.ctx();
@@ -234,6 +239,25 @@ pub fn check(mapfile: &str, body: &str, model_ill: bool) -> Out {
                     ast::Expr::Ternary { cond, left, right, .. } => { subexprs(cond, out); subexprs(left, out); subexprs(right, out); },
                     ast::Expr::DiffSwitch(cases) => for c in cases.iter().flatten() { subexprs(c, out); },
                     _ => {},
+                }
+            }
+            // consts cannot be evaluated by AstVm::eval; fold them instead: where const_simplify turns a statement's
+            // expression into a literal, that literal's type is the type of the value
+            if body.contains("const ") {
+                let mut folded = block.clone();
+                match truth::passes::const_simplify::run(&mut folded, truth.ctx()) {
+                    Err(e) => { e.ignore(); mismatches.push("const_simplify failed on an accepted program".to_string()); },
+                    Ok(()) => {
+                        let mut t1 = vec![]; walk(&block.0, &mut t1);
+                        let mut t2 = vec![]; walk(&folded.0, &mut t2);
+                        let ctx = truth.ctx();
+                        for (a, b) in t1.iter().zip(t2.iter()) {
+                            let got = match &b.value { ast::Expr::LitInt { .. } => truth::ScalarType::Int, ast::Expr::LitFloat { .. } => truth::ScalarType::Float, _ => continue };
+                            let Ok(predicted) = catch(|| a.compute_ty(ctx)) else { continue };
+                            n_checked += 1;
+                            if predicted.as_value_ty() != Some(got) { mismatches.push(format!("{}: checker predicts {:?}, the folded value is {:?}", truth::fmt::stringify(&a.value), predicted, got)); }
+                        }
+                    },
                 }
             }
             let mut tops = vec![]; walk(&block.0, &mut tops);
@@ -359,6 +383,32 @@ pub fn run(tier: &str) -> Report {
         if cases[i].1 { rep.nontrivial += 1; }
         if i % 9001 == 0 { rep.sample(json!({"body": cases[i].0, "model_ill_typed": cases[i].1})); }
         rep.failures.extend(o.failures);
+    }
+    // family (c): consts (of either type, defined in either order, one reading the other through a casting sigil or a cast)
+    // used as atoms of expressions: the type the checker assigns to each expression must be the type of its value
+    {
+        let mut ccases: Vec<(String, bool, bool)> = vec![];
+        let defs: [(&str, &str); 6] = [
+            ("const float KF = 2.5;", "const int KI = $KF;"), ("const int KI = 7;", "const float KF = %KI;"), ("const float KF = 2.5;", "const int KI = int(KF);"),
+            ("const int KI = 7;", "const float KF = float(KI);"), ("const float KF = 2.5;", "const int KI = 3;"), ("const float KF = 1.5 + 1.0;", "const int KI = $KF + 1;"),
+        ];
+        let uses = ["X = KF;", "A = KI;", "X = (KF + KF);", "A = (KI + KI);", "X = float(KI);", "A = int(KF);", "X = (KF * 2.0);", "X = (-(KF));", "A = (KI ? KI : 3);", "X = (A ? KF : 1.0);", "mf(KF);", "mS(KI);",
+            "A = $KF;", "X = %KI;", "X = (KF + %KI);", "A = (KI + $KF);", "A = (KF < 3.0);", "A = (KI < 3);"];
+        for (d1, d2) in defs { for u in uses { for order in 0..3 {
+            let body = match order { 0 => format!("{{ {d1} {d2} {u} }}"), 1 => format!("{{ {d2} {d1} {u} }}"), _ => format!("{{ {u} {d2} {d1} }}") };
+            ccases.push((body, false, false));
+        }}}
+        // ill-typed controls
+        for (d1, d2) in defs { for u in ["A = KF;", "X = KI;", "A = (KI + KF);", "mS(KF);", "mf(KI);"] { ccases.push((format!("{{ {d2} {d1} {u} }}"), true, true)); } }
+        let cres = par_map(&ccases, Some(deadline), |_, (b, ill, _)| check(&mapfile, b, *ill));
+        for (i, r) in cres.into_iter().enumerate() {
+            let Some(o) = r else { continue; };
+            rep.evaluations += 1; rep.traces_validated += 1 + o.type_checks; rep.states += 1; rep.transitions += 1;
+            rep.outcome(&format!("consts:{}", o.class));
+            if ccases[i].1 { rep.nontrivial += 1; }
+            rep.failures.extend(o.failures);
+        }
+        rep.extra.insert("const_family_cases".into(), json!(ccases.len()));
     }
     // family (b): declared parameter types through the real ECL pipelines
     let pcs = param_cases();
